@@ -1,5 +1,5 @@
 Require Extraction.
 Require Import ExtrOcamlBasic.
-From SCMO Require Import Lib.Val Model.C17.
-Definition run := run_C17.
+From SCMO Require Import Lib.Val Model.C17 Model.C17bed Model.C17x.
+Definition run := run_C17x.
 Extraction "c17_model.ml" run.
